@@ -184,7 +184,7 @@ Section C.
       2:{ destruct (chunk_sizes_spec b n Hb) as [Hc _]. eapply Forall_impl; [|exact Hc]. cbn. intros; lia. }
       pose proof (spec_chunks_keys O ch (res, sx) (chunk_sizes b n)) as Hk.
       destruct (spec_chunks O ch (res, sx) (chunk_sizes b n)) as [[res1 sx1] o1]. cbn [fst snd] in *.
-      rewrite (IH (res1, sx1)) by (cbn; congruence).
+      pose proof (IH (res1, sx1)) as IH1. cbn [fst snd] in IH1. rewrite IH1 by congruence.
       destruct (spec_hist ch b (res1, sx1) h) as [[res2 sx2] o2]. reflexivity.
     - destruct (Hx st ND) as [Hf ND']. rewrite Hf. now apply IH.
   Qed.
